@@ -211,6 +211,17 @@ def run_c12(tier, seed):
             op = E.Operation(Cc.NonPolarizingBeamSplitter, eta=eta)
             op.dimensions = [d1, d2]
             cmp("dispatch", "Composite.BS", op.operator, OT.beamsplitter(d1, d2, eta), {"eta": eta, "dims": [d1, d2]}, 1e-8)
+    # one Operation object asked for its operator at a sequence of target dimensions (permuted, equal product)
+    for eta in angles[2:6]:
+        op = E.Operation(Cc.NonPolarizingBeamSplitter, eta=eta)
+        for dd in ([2, 3], [3, 2], [4, 1], [2, 2], [1, 4], [3, 2], [2, 3]):
+            op.dimensions = list(dd)
+            cmp("dispatch", "Composite.BS(reused object)", op.operator, OT.beamsplitter(dd[0], dd[1], eta), {"eta": eta, "dims": dd, "reused": True}, 1e-8)
+    for al in alphas[1:4]:
+        op = E.Operation(F.Displace, alpha=al)
+        for d in (3, 5, 3, 4):
+            op.dimensions = [d]
+            cmp("dispatch", "Fock.Displace(reused object)", op.operator, OT.displace(d, al), {"alpha": str(al), "dim": d, "reused": True}, 1e-8)
     return C.finish(tier, seed, "exploration",
                     "complete enumeration of: every constructor of _math/ops.py and every operation type via Operation(...).operator, "
                     f"angles {angles}, alpha {[str(a) for a in alphas]}, zeta {[str(z) for z in zetas]}, cut-offs {cutoffs}; "
